@@ -164,22 +164,37 @@ def sequential_traces(ctx: Ctx, rnd: random.Random, ntraces: int, maxlen: int) -
                 zc = ZonedClock(clock, zone, CalendarSystem.for_id(cal))
                 ev.update(op="zoned", offset=off, cal=cal, zone=zone.id)
 
-                def _z():
-                    z = zc.get_current_zoned_date_time()
-                    ldt = z.local_date_time
-                    return z, ldt
+                getter = rnd.choice(["get_current_zoned_date_time", "get_current_offset_date_time", "get_current_local_date_time",
+                                     "get_current_date", "get_curent_time_of_day", "get_current_instant"])
+                ev["getter"] = getter
 
-                # instants within 18h of the range ends cannot be rendered with every offset: stay inside
-                cur = clock  # noqa: F841
+                def _z():
+                    return getattr(zc, getter)()
+
                 r = _call(_z)
                 if r[0] == "ok":
-                    z, ldt = r[1]
-                    nod = ldt.nanosecond_of_day
-                    ev["instant"] = proj.t3_instant(z.to_instant())
-                    ev["local"] = [ldt.date._days_since_epoch, nod // proj.NPS, nod % proj.NPS]
-                    ev["got_offset"] = z.offset.seconds
-                    ev["got_cal"] = z.calendar.id
-                    ev["got_zone"] = z.zone.id
+                    v = r[1]
+                    # which parts this getter exposes: instant / local day / local time of day / offset / calendar / zone
+                    ev.update(has_instant=False, has_day=False, has_time=False, has_meta=False,
+                              instant=[0, 0, 0], local=[0, 0, 0], got_offset=off, got_cal=cal, got_zone=zone.id)
+                    if getter == "get_current_instant":
+                        ev.update(has_instant=True, instant=proj.t3_instant(v))
+                    elif getter in ("get_current_zoned_date_time", "get_current_offset_date_time"):
+                        ldt = v.local_date_time
+                        nod = ldt.nanosecond_of_day
+                        ev.update(has_instant=True, has_day=True, has_time=True, has_meta=True, instant=proj.t3_instant(v.to_instant()),
+                                  local=[ldt.date._days_since_epoch, nod // proj.NPS, nod % proj.NPS],
+                                  got_offset=v.offset.seconds, got_cal=v.calendar.id,
+                                  got_zone=v.zone.id if getter == "get_current_zoned_date_time" else zone.id)
+                    elif getter == "get_current_local_date_time":
+                        nod = v.nanosecond_of_day
+                        ev.update(has_day=True, has_time=True, local=[v.date._days_since_epoch, nod // proj.NPS, nod % proj.NPS],
+                                  got_cal=v.calendar.id)
+                    elif getter == "get_current_date":
+                        ev.update(has_day=True, local=[v._days_since_epoch, 0, 0], got_cal=v.calendar.id)
+                    else:
+                        nod = v.nanosecond_of_day
+                        ev.update(has_time=True, local=[0, nod // proj.NPS, nod % proj.NPS])
                 else:
                     # rendering failed (range end): not a clock operation; drop the event, re-sync model
                     ev = {"t": t, "op": "reset", "i": proj.t3_from_ns(i0)}
